@@ -228,6 +228,13 @@ func BuildUTF8(shapes []Shape, receiver ref.Side, rng *rand.Rand) []ref.Frame {
 		}
 		text := make([]byte, 0, total)
 		for k := rng.Intn(len(chars)); len(text) < total; k++ {
+			if rng.Intn(3) == 0 {
+				// an ASCII run of 0..20 bytes in front of the next multi-byte character (word-at-a-time and
+				// "skip the ASCII prefix" validators are exact about where a run ends)
+				for run := rng.Intn(21); run > 0 && len(text) < total-4; run-- {
+					text = append(text, byte('a'+rng.Intn(26)))
+				}
+			}
 			ch := chars[k%len(chars)]
 			if len(text)+len(ch) > total {
 				ch = "z"
